@@ -46,7 +46,7 @@ Fixpoint schedules02 (alphabet : list qop) (len : nat) : list (list qop) :=
   end.
 
 Definition c02_alphabet (ck : bool) : list qop :=
-  [ OCommit 1 (1, 1, 1) (TUser 1) [k1_r1] false (Flt [] [3] None);
+  [ OCommit 1 (1, 1, 1) (TUser 1) [k1_r1] false (Flt [] [3] None []);
     OCommit 1 (1, 1, 1) (TUser 2) [k1_r2] false no_faults;
     ODown 1; OUp 1; ODown 3; OUp 3;
     OInstall 2 (1, 2, 2) false 2 no_faults;
